@@ -6,7 +6,10 @@ LEVEL = 'model_checking'
 EXPLANATION = ('After every operation, for every instance: if it is pending/active its free cores equal its total cores minus '
                'the cores of the attempts placed on it whose end time is unset; if it is inactive all cores are free — under '
                'duplicate, stale and reordered schedule/creating/started/complete/unschedule/deactivate messages.'
-               + sc_.BMC_TEXT)
+               + sc_.BMC_TEXT + ' In-memory side: the real driver coroutines schedule_job / mark_job_started / mark_job_complete / '
+               'unschedule_job / mark_job_creating run natively (vt/glue) with a symbolic procedure result (rc, delta_cores_mcpu) and '
+               'a symbolic mirror value; per path z3 shows the mirror moves by exactly the returned delta while the instance is in '
+               'the state in which the mirror is maintained and not at all when it is inactive/deleted, and that the paths cover all values.')
 
 ALPH = ['schedule', 'creating', 'started', 'complete', 'unschedule', 'deactivate', 'activate', 'cancel_group']
 DEEP = [
@@ -33,7 +36,16 @@ def asserts(sc):
 def run(R):
     sc_.standard_run(R, 'C10', asserts, 'free-cores-differ-from-recount', deep=DEEP, quick_alphabet=ALPH, thorough_alphabet=ALPH,
                      known='pending-instance-ended-attempt-keeps-cores')
+    # in-memory side: the driver's mirror (Instance.adjust_free_cores_in_memory) moves in lockstep with the procedures' deltas
+    from harness import C10_mirror
+    C10_mirror.run(R)
 
 
 def replay(path):
+    import json
+    d = json.load(open(path))
+    d = d.get('replay', d) if isinstance(d, dict) else d
+    if isinstance(d, dict) and d.get('kind') == 'mirror':
+        from harness import C10_mirror
+        return 1 if C10_mirror.replay_case(d) else 0
     return sc_.replay_file(path, asserts)
